@@ -733,11 +733,11 @@ func lexSoyDocParam(l *lexer) {
 	for {
 		var r = l.next()
 		if isSpaceEOL(r) || r == eof {
-			l.pos--
+			l.backup() // steps back over r; at end of input nothing was read
 			l.emit(itemIdent)
 			// don't skip newlines. the outer routine needs to know about it
-			if isSpace(r) || r == eof {
-				l.pos++
+			if isSpace(r) {
+				l.next()
 			}
 			l.ignore()
 			break
